@@ -150,6 +150,9 @@ pub struct World {
     pub post_panic: bool,
     /// observation of a fresh clone: recorded sizes may exceed re-measured ones
     pub lenient_sizes: bool,
+    /// failures of *other* properties met earlier in this case, after which the
+    /// case went on from the observed state (see `resync_past_foreign`)
+    pub foreign_first: Vec<Failure>,
 }
 
 #[macro_export]
@@ -162,6 +165,7 @@ macro_rules! ck {
 }
 
 pub const MAX_HEAP: usize = 1 << 40;
+pub const GIANT_LIMIT: usize = 1 << 61;
 pub const MAX_CAP_ARG: usize = 1 << 16;
 
 impl World {
@@ -192,6 +196,7 @@ impl World {
             last_counts: [0; 9],
             post_panic: false,
             lenient_sizes: false,
+            foreign_first: Vec::new(),
         };
         let limit = w.resolve_limit_initial(&cfg.limit);
         let side = w.new_side(limit, cfg.capacity.map(|c| c as usize));
@@ -220,6 +225,66 @@ impl World {
         self.cfg.hasher
     }
 
+    /// C01 and C03 are stated in terms of the *true* sizes of what is held
+    /// ("makes everything fit"). A change that corrupts the bookkeeping first
+    /// trips an accounting oracle (C02) and only later, and because of it,
+    /// evicts too much or too little. For these two targets a case therefore
+    /// does not end at a failure that carries another property's tag: the model
+    /// is rebuilt from what the cache shows (contents, order, re-measured
+    /// sizes, limit) and the case goes on; only a failure carrying the target's
+    /// tag is reported. Returns false if the case cannot go on.
+    pub fn resync_past_foreign(&mut self) -> bool {
+        let target = match self.target { Some(t) if t == "C01" || t == "C03" => t, _ => return false };
+        if self.fails.iter().any(|f| f.has(target)) || self.sides.len() != 1 {
+            return false;
+        }
+        let earlier = std::mem::take(&mut self.fails);
+        if self.foreign_first.is_empty() {
+            self.foreign_first = earlier;
+        }
+        self.leaks_allowed = true;
+        self.pending_inject = None;
+        let _ = tracked::take_vios();
+        let obs = self.observe_side(self.active, Level::Full, false);
+        // what this observation finds for other properties is the same story again
+        self.fails.retain(|f| f.has(target));
+        let obs = match obs {
+            Some(o) if self.fails.is_empty() => o,
+            _ => return false,
+        };
+        self.stats.ev("continued-past-foreign");
+        let e0 = self.e0;
+        // nothing is marked as legitimately out of sync: the oracles stated in
+        // true sizes stay on
+        let desync = BTreeSet::new();
+        let ents: Vec<Ent> = obs.items.iter().map(|it| {
+            let measured = e0 + it.kheap + it.vheap;
+            Ent { k: it.k, key_id: it.key_id, val_id: it.val_id, kheap: it.kheap, vheap: it.vheap, tag: it.tag, size: measured }
+        }).collect();
+        let listed: BTreeSet<u64> = ents.iter().flat_map(|e| [e.key_id, e.val_id]).collect();
+        for e in self.side().model.order.clone() {
+            for id in [e.key_id, e.val_id] {
+                if !listed.contains(&id) { tracked::set_leak_ok(id); }
+            }
+        }
+        let max = obs.max;
+        let fp = self.side().cache().verif_fingerprint();
+        let peak = obs.len;
+        let cap = obs.cap;
+        let f = self.fresh(cap);
+        let side = self.side_mut();
+        side.model.replace_all(ents);
+        side.model.limit = max;
+        side.desynced = desync;
+        side.shrunk.clear();
+        side.wc_track = None;
+        side.last_obs = obs;
+        side.last_fp = fp;
+        side.peak_len = side.peak_len.max(peak);
+        side.requested_cap = side.requested_cap.max(f);
+        true
+    }
+
     /// Capacity hashbrown gives an empty table for request `r`, obtained
     /// from hashbrown itself.
     pub fn fresh(&mut self, r: usize) -> usize {
@@ -240,6 +305,8 @@ impl World {
             LimSel::Ents(n, d) => (n as usize * self.e0).saturating_add_signed(d as isize),
             LimSel::Max => usize::MAX,
             LimSel::MaxMinus(d) => usize::MAX - d as usize,
+            LimSel::Pow(e, d) => (1usize << e.min(63)).saturating_add_signed(d as isize),
+            LimSel::ThreeQuarters(d) => ((1usize << 63) + (1usize << 62)).saturating_add_signed(d as isize),
         }
     }
 
@@ -317,11 +384,17 @@ impl World {
             SizeSel::MaxPlus(d) => m.limit.saturating_add_signed(d as isize),
             SizeSel::NeedEvict(n, d) => {
                 let extra: usize = m.order.iter().filter(|e| e.k != k)
-                    .take(n as usize).map(|e| e.size).sum();
+                    .take(n as usize).fold(0usize, |a, e| a.saturating_add(e.size));
                 free.saturating_add(extra).saturating_add_signed(d as isize)
             },
+            SizeSel::Frac(k, d) => (m.limit >> k.min(8)).saturating_add_signed(d as isize),
         };
-        target.saturating_sub(base).min(MAX_HEAP)
+        // "real" sizes up to 2^40 per entry; with a limit beyond 2^61 (which no
+        // real memory backs anyway) the cap is lifted, so that entries of the
+        // limit's own magnitude are exercised: every sum the cache has to form
+        // there still fits a usize (see do_mutate for the one exclusion)
+        let cap = if m.limit > GIANT_LIMIT { usize::MAX } else { MAX_HEAP };
+        target.saturating_sub(base).min(cap)
     }
 
     pub fn resolve_limit(&self, l: &LimSel) -> usize {
@@ -331,12 +404,14 @@ impl World {
             LimSel::Abs(n) => n as usize,
             LimSel::CurPlus(d) => m.total().saturating_add_signed(d as isize),
             LimSel::KeepMru(n, d) => {
-                let s: usize = m.order.iter().rev().take(n as usize).map(|e| e.size).sum();
+                let s: usize = m.order.iter().rev().take(n as usize).fold(0usize, |a, e| a.saturating_add(e.size));
                 s.saturating_add_signed(d as isize)
             },
             LimSel::Ents(n, d) => (n as usize * self.e0).saturating_add_signed(d as isize),
             LimSel::Max => usize::MAX,
             LimSel::MaxMinus(d) => usize::MAX - d as usize,
+            LimSel::Pow(e, d) => (1usize << e.min(63)).saturating_add_signed(d as isize),
+            LimSel::ThreeQuarters(d) => ((1usize << 63) + (1usize << 62)).saturating_add_signed(d as isize),
         }
     }
 
@@ -480,13 +555,13 @@ impl World {
             drop(q);
 
             // recorded sizes vs. re-measured sizes, totals
-            let mut sum_measured = 0usize;
-            let mut sum_recorded = 0usize;
+            let mut sum_measured = 0u128;
+            let mut sum_recorded = 0u128;
             for (i, it) in items.iter().enumerate() {
                 let measured = self.e0 + it.kheap + it.vheap;
-                sum_measured = sum_measured.wrapping_add(measured);
+                sum_measured += measured as u128;
                 if let Some(&rec) = structure.sizes.get(i) {
-                    sum_recorded = sum_recorded.wrapping_add(rec);
+                    sum_recorded += rec as u128;
                     if rec != measured && !side.desynced.contains(&it.k) && !self.post_panic
                         && !((self.lenient_sizes || side.shrunk.contains(&it.k)) && rec > measured) {
                         fails.push((vec!["C02"], "recorded-size".into(),
@@ -496,18 +571,18 @@ impl World {
                 }
             }
             if side.desynced.is_empty() && side.shrunk.is_empty() && !self.post_panic && !self.lenient_sizes {
-                if sum_measured != cur {
+                if sum_measured != cur as u128 {
                     fails.push((vec!["C02"], "sum".into(),
                         format!("current_size() = {} but the sum of entry_size over iter() is {}",
                             cur, sum_measured)));
                 }
-                if sum_measured > max {
+                if sum_measured > max as u128 {
                     fails.push((vec!["C01"], "true-bound".into(),
                         format!("sum of entry_size over iter() = {} exceeds max_size() = {}",
                             sum_measured, max)));
                 }
             }
-            if sum_recorded != cur {
+            if sum_recorded != cur as u128 {
                 fails.push((vec!["C02", "C16"], "sum-recorded".into(),
                     format!("current_size() = {} but recorded sizes sum to {}", cur, sum_recorded)));
             }
